@@ -759,7 +759,6 @@ func (c *Ctx) byteOf(e ast.Expr, x types.Object) string {
 	return "?"
 }
 
-
 type countPay struct{ appends, other int }
 
 func (p *countPay) Clone() Payload { q := *p; return &q }
